@@ -186,7 +186,8 @@ PLANS["C17"] = {
 PLANS["C09"] = {
     "apalache": True,
     "props": ["C09"], "ops": [],
-    "mc": [mc("Psweep", geoms("GLong", "GLong"), ports({"api": 1, "chars": 3}, {"api": 1, "chars": 1}), invariants=["WellFormedInv", "Emit"]),
+    "mc": [mcseq("C14seq", {"quick": 3, "thorough": 3}, ports({"api": 1}, {"api": 1})),
+           mc("Psweep", geoms("GLong", "GLong"), ports({"api": 1, "chars": 3}, {"api": 1, "chars": 1}), invariants=["WellFormedInv", "Emit"]),
            {"module": "MCReach", "model": "reach", "kind": "screen", "view": "View", "constraint": "StackBound",
             "constants": {"MaxC": {"quick": 2, "thorough": 3}, "MaxL": {"quick": 2, "thorough": 2}, "Depth": 30},
             "invariants": ["WellFormedInv", "OriginConfined", "Emit"], "ports": ports({"api": 2}, {"api": 2, "chars": 9}), "workers": 8},
@@ -272,7 +273,7 @@ PLANS["C11"] = {
             "invariants": ["StreamingEqualsWhole", "NothingLost"], "ports": ports({"bytes": 1}, {"bytes": 1}), "workers": 8},
            {"module": "MCUtf8Abs", "model": "utf8-class-sweep", "kind": "bytes", "constants": {"RepTailsOnly": {"quick": "TRUE", "thorough": "FALSE"}},
             "invariants": ["TailsAreOK", "StepKeepsTailOK", "ClassAbstractionSound", "StepAccountsForByte", "Emit"], "ports": ports({"bytes": 1}, {"bytes": 1}), "workers": 4}],
-    "gen": [gen("recsoup", 400, 12000, port="bytes", chars=60), gen("soup", 200, 6000), gen("captured", 7, 70, maxbytes=1200)],
+    "gen": [gen("recsoup", 400, 12000, port="bytes", chars=60), gen("soup", 200, 6000), gen("captured", 7, 70, maxbytes=1200), gen("bigchunk", 3, 12)],
     "rule": "byte strings with well-formed 1-4 byte forms, overlongs, surrogates, > U+10FFFF, stray continuation bytes, truncated sequences, "
             "BOM, random chunking and mode switches between chunks; the text delivered to the listener per feed() call is compared by TLC "
             "with the specification's streaming decoder (pending tail carried by TLC)",
